@@ -236,7 +236,9 @@ def run(ck):
         "(R09.3). (3) Every class holding a driver object or overriding __enter__/__exit__ (RadioMixin and its four concrete classes, FakeBLE) "
         "is analysed the same way and must reach the same effects (R09.4). (4) No class-level or module-level mutable object carries "
         "configuration, each shadow container is allocated per instance (R09.5). (5) The constructors of RF24 and FakeBLE, run abstractly, end "
-        "in a state where every shadow equals its register (R09.6) - the base case of the induction, including FakeBLE's direct shadow edits.")
+        "in a state where every shadow equals its register (R09.6) - the base case of the induction, including FakeBLE's direct shadow edits. "
+        "(6) The inductive step: C03's setter/getter/pipe/address scenarios are re-run here, so every public operation provably leaves each shadow "
+        "equal to its register (R03.3) and a drifting shadow is reported by this check too.")
     ck.not_decided = ["the CE/listen role is not a register and is not restored by `with` (documented); reported as an observation only"]
     agg = Agg(ck)
     radio = Radio(ck)
@@ -273,7 +275,12 @@ def run(ck):
                     agg.add("R09.6", init, "constructor writes a legal value to %s" % regname(rc), okl, det, ev.node)
     nw = wrappers(ck, radio, agg)
     nl = no_leak(ck, agg, radios)
+    # inductive step (anchor "every setter/getter keeps its shadow current"): the C03 rule set, whose R03.3 obligations state that every
+    # public operation leaves shadow == register; a shadow that drifts makes the next __enter__ restore a value the object never set
+    from . import c03
+    nstep = c03.run_setters(radio, agg, contract.SETTERS) + c03.run_getters(radio, agg, contract.GETTERS) + c03.run_pipes(radio, agg) + c03.run_address(radio, agg)
     agg.flush()
+    ck.floor("R09.7", "setter/getter/pipe scenarios of the inductive step", nstep, 450)
     ck.floor("R09.1", "configuration registers", len(regmap.CONFIG_REGS), 22)
     ck.floor("R09.4", "wrapper classes holding a driver", nw, 1)
     ck.floor("R09.4", "driver subclasses", nsub, 1)
